@@ -28,6 +28,7 @@ type RestartScenario struct {
 	// Demuxer with the same options is the reference.
 	Skipper *SkipSpec `json:"skipper,omitempty"`
 	Observe bool      `json:"observe,omitempty"`
+	K       int       `json:"k,omitempty"` // stream carried in 188+K byte packets (explicit size 188+K, or auto for K<=4)
 }
 
 type restart struct{}
@@ -123,6 +124,9 @@ func (restart) Generate(r *core.PRNG, tier string, idx int64) any {
 		sc.Skipper = k
 	}
 	sc.Observe = r.Chance(1, 6)
+	if r.Chance(1, 6) {
+		sc.K = []int{4, 16, 2}[r.Intn(3)]
+	}
 	if idx%2 == 0 {
 		sc.Enum = true
 		return sc
@@ -152,8 +156,15 @@ func (restart) Execute(scAny any, keepLog bool) *core.Outcome {
 	}
 	npk := len(b.Packets)
 	out.Packets = int64(npk)
-	data := refts.Join(b.Packets)
+	k := sc.K
+	if k < 0 || k > 64 {
+		k = 0
+	}
+	data := reframe(b.Packets, k)
 	cfg := sc.Demux
+	if cfg.PacketSize != 0 || k > 4 {
+		cfg.PacketSize = 188 + k
+	}
 	cfg.Reader.Kind = "seekable"
 	var nGroups int
 	opts := func() []func(*astits.Demuxer) {
@@ -188,8 +199,8 @@ func (restart) Execute(scAny any, keepLog bool) *core.Outcome {
 	}
 	// state bookkeeping for fingerprints: after k fresh NextData calls, how many packets were consumed
 	consumed := make([]int, len(fresh)+1)
-	for k, r := range fresh {
-		consumed[k+1] = r.Pos / refts.PacketSize
+	for ci, r := range fresh {
+		consumed[ci+1] = r.Pos / (refts.PacketSize + k)
 	}
 	stateClass := func(j int) string {
 		if j > len(fresh) {
@@ -308,7 +319,7 @@ func (restart) Execute(scAny any, keepLog bool) *core.Outcome {
 			out.Violate("C20", cls, sig, "after Rewind (steps %v, size option %d) the delivered sequence differs from a fresh Demuxer's: %s", steps, cfg.PacketSize, msg)
 		}
 		if len(out.Violations) > pre {
-			out.Narrow(pre, &RestartScenario{Model: sc.Model, Demux: sc.Demux, Steps: steps, Skipper: sc.Skipper, Observe: sc.Observe})
+			out.Narrow(pre, &RestartScenario{Model: sc.Model, Demux: sc.Demux, Steps: steps, Skipper: sc.Skipper, Observe: sc.Observe, K: sc.K})
 		}
 		if len(steps) > 0 && steps[0].N > 0 {
 			out.FP(fmt.Sprintf("%s/%d/%d", fp, cfg.PacketSize, len(steps)))
